@@ -151,6 +151,26 @@ def build(d):
     return fcp
 
 
+def decoy_desc(d):
+    """Same names everywhere, other field widths and enumerator values: a different schema that was verified earlier in
+    the same process (state keyed by names - caches on classes, modules, plug-in objects - must not leak into the verdict)."""
+    def ty(t):
+        if t[0] in ("u", "i"):
+            return (t[0], 1)
+        return t
+
+    def enum(es):
+        top = max(range(len(es)), key=lambda i: es[i][1] if isinstance(es[i][1], int) else 0) if es else 0
+        return [(n, (200 + i if i == top else i)) for i, (n, _) in enumerate(es)]
+
+    return dict(structs=[(n, [(fn, ty(t)) for fn, t in fs]) for n, fs in d["structs"]],
+                enums=[(n, enum(es)) for n, es in d["enums"]], impls=list(d["impls"]), services=list(d["services"]),
+                devices=list(d["devices"]))
+
+
+DECOY_FIRST = ("size", "size_compound", "bodyless", "enum", "bind")
+
+
 def _mk_enum(Enum, Enumeration, n, es, meta):
     e = Enum.__new__(Enum)  # Enum.__init__ asserts a non-empty list; the verifier's domain includes any list
     e.name, e.enumeration, e.meta = n, [Enumeration(a, v, meta) for a, v in es], meta
@@ -328,6 +348,17 @@ def c09_case(args):
     mod = importlib.import_module(PLUGINS[plugin]) if PLUGINS[plugin] else None
 
     def body():
+        if skname in DECOY_FIRST:
+            # history: a same-named but different schema went through a verifier of the same configuration first
+            v0 = make_general_verifier()
+            if mod is not None:
+                mod.Generator().register_checks(v0)
+            try:
+                v0.verify(build(decoy_desc(d)))
+            except EngineLimit:
+                raise
+            except Exception:
+                pass
         v = make_general_verifier()
         if mod is not None:
             mod.Generator().register_checks(v)
